@@ -1086,6 +1086,11 @@ impl<'a, 'b, W: Write> Serializer for &'a mut YamlSerializer<'b, W> {
                     //  - >=2 → "|+" (keep)
                     let content = v.trim_end_matches('\n');
                     let trailing_nl = v.len() - content.len();
+                    // Clip chomping keeps a final line feed only after a content line. An
+                    // auto-selected block made of a single line feed therefore needs `|+`
+                    // (the explicit `LitStr("\n")` form keeps its historical `|` spelling).
+                    let keep_single_nl =
+                        content.is_empty() && trailing_nl == 1 && self.pending_str_from_auto;
 
                     // Write block scalar header: | or |N with optional chomp indicator
                     self.out.write_char('|')?;
@@ -1096,7 +1101,7 @@ impl<'a, 'b, W: Write> Serializer for &'a mut YamlSerializer<'b, W> {
                     }
                     match trailing_nl {
                         0 => self.out.write_char('-')?,
-                        1 => {} // clip is the default, no indicator needed
+                        1 if !keep_single_nl => {} // clip is the default, no indicator needed
                         _ => self.out.write_char('+')?,
                     }
                     self.newline()?;
@@ -1117,10 +1122,10 @@ impl<'a, 'b, W: Write> Serializer for &'a mut YamlSerializer<'b, W> {
                     let indent_str = indent_buf.as_str();
 
                     if content.is_empty() {
-                        if trailing_nl >= 1 {
+                        // Line feeds only: under keep chomping each one is its own empty line.
+                        for _ in 0..trailing_nl {
                             self.out.write_str(indent_str)?;
                             self.at_line_start = false;
-                            // write a single empty content line
                             self.newline()?;
                         }
                     } else {
